@@ -45,14 +45,13 @@ Definition row_ok (r : wrow) : bool :=
   (Z.of_nat (length (w_pay r)) =? plen) && (0 <=? w_sec r) && (w_sec r <? 86400 * dby 10000)
   && (0 <=? w_ns r) && (w_ns r <? nsPerSec).
 
-(** the guard: well-formed rows dated 1970..9999; no F2 row; no F3 misfire in any request; the codec
+(** the guard: well-formed rows dated 1970..9999; no F2 row; the codec
     hypothesis (every row decodes within C10's bound; in the final file state decoded times lie inside
     their intervals and follow tick order — [wf_bucket], which also demands a queryable timeframe: not
-    4H); files dated 1970+; fewer than 2^31 rows.  (F4 — second-stage buffer panic — and F1 are fixed.) *)
+    4H); files dated 1970+; fewer than 2^31 rows.  (F4 — second-stage buffer panic —, F1 and F3 — cross-year merge — are fixed.) *)
 Definition guard_C09 (hist : list (list wrow)) : bool :=
   forallb row_ok (all_rows hist)
   && negb (existsb (f2_row tf) (all_rows hist))
-  && negb (existsb (f3_misfire tf) hist)
   && forallb bound_ok (all_rows hist)
   && wf_bucket (final_bucket hist)
   && forallb (fun f => 1970 <=? y_year f) (b_files (final_bucket hist))
